@@ -90,7 +90,7 @@ def run(seed, tier, replay=None):
     r = mix.merge(run_p(seed, tier, replay), mix.check([mix.mon_once, mix.mon_history, mix.mon_attempt_model], seed, tier))
     # cancelled runs (fail-fast / max-fail while a sibling runs, fails into a retry delay, or waits one out): the history monitor only
     tim.FAMILIES["cancel-history"] = (tim.gen_cancel, [mix.mon_history, tim.mon_skipped]); tim.RULES["cancel-history"] = tim.RULES["cancel"] + "; here only the exactly-once / attempt-numbering monitor (mon_history) is evaluated"
-    r = mix.merge(r, tim.run_family("cancel-history", seed, tier, 5, 30))
+    r = mix.merge(r, tim.run_family("cancel-history", seed, tier, 7, 35))
     tim.FAMILIES["sig-history"] = (tim.gen_sig, [mix.mon_history]); tim.RULES["sig-history"] = tim.RULES["sig"] + "; here only the exactly-once / attempt-numbering monitor (mon_history) is evaluated"
     return mix.merge(r, tim.run_family("sig-history", seed, tier, 4, 30))
 
